@@ -15,6 +15,7 @@ import (
 	"bytes"
 	"fmt"
 	"io"
+	"os"
 	"strings"
 
 	ipld "github.com/ipld/go-ipld-prime"
@@ -112,7 +113,21 @@ type Rec struct {
 
 // newTS compiles the scenario's schema; every simulated world gets its own type system (and its
 // own copy of C19's vocabulary schema), so that a run cannot inherit damaged shared state.
+var selftestSharedTS *schema.TypeSystem
+
 func newTS() *schema.TypeSystem {
+	if os.Getenv("VERIF_SELFTEST_SHARED_TS") == "1" {
+		// self-test of the driver's worker-history replay only: all worlds of a process share one
+		// type system again, so that a change which damages it makes failures depend on process history
+		if selftestSharedTS == nil {
+			selftestSharedTS = compileTS()
+		}
+		return selftestSharedTS
+	}
+	return compileTS()
+}
+
+func compileTS() *schema.TypeSystem {
 	t, err := ipld.LoadSchemaBytes([]byte(`
 type TMap {String:Int}
 type Rec struct {
